@@ -319,17 +319,33 @@ def check(ctx):
                               {"proto": "cli-cmd", "module": "m", "packages": one, "patterns": ["./..."]}, expected={"exit": 0, "files": ["m.v", "m/sub.v"]},
                               observed={"exit": rc, "files": sorted(t), "stderr": err[-400:]})
         else:
-            p2 = C.run(["go", "list", "-tags", "goose", "-f", "{{.GoFiles}}", "./sub"], cwd=root)
-            listed = sorted(p2.stdout.strip().strip("[]").split())
             name_of = {"s.go": "Sub", "linux.go": "OnLinux", "go118.go": "OnGo118", "either.go": "Either", "win.go": "OnWindows", "both.go": "GooseLinux", "notgoose.go": "NotGoose"}
-            want = sorted(name_of[f] for f in listed)
-            txt = t["m/sub.v"][0].decode()
-            got = sorted(re.findall(r"^Definition (\w+):", txt, re.M))
-            stats["constraint_files_listed"] = len(listed)
-            if got != want and not found:
-                found = True
-                ctx.violation("counterexample", "sources selected differ from `go list -tags goose` (build constraints other than the goose tag)",
-                              {"proto": "cli-cmd", "module": "m", "packages": {"sub": one["sub"]}}, expected={"files": listed, "definitions": want}, observed={"definitions": got})
+            # … in the caller's environment, and with another target platform in the environment (GOOS/GOARCH select files too)
+            for envx in ({}, {"GOOS": "windows", "GOARCH": "arm64"}, {"GOOS": "darwin"}):
+                env = dict(C.GOENV)
+                env.update(envx)
+                p2 = C.run(["go", "list", "-tags", "goose", "-f", "{{.GoFiles}}", "./sub"], cwd=root, env=env)
+                listed = sorted(p2.stdout.strip().strip("[]").split())
+                if not listed:
+                    raise C.Infra("go list failed under %s: %s" % (envx, p2.stderr[-300:]))
+                want = sorted(name_of[f] for f in listed)
+                if envx:
+                    shutil.rmtree(os.path.join(root, "Goose"), ignore_errors=True)
+                    rc, out, err = gomod.run_goose(root, [], ["./..."], out=os.path.join(root, "Goose"), env_extra=envx)
+                    t = gomod.tree(os.path.join(root, "Goose"))
+                    if "m/sub.v" not in t:
+                        if not found:
+                            found = True
+                            ctx.violation("counterexample", "goose command under another target platform in the environment", {"proto": "cli-cmd", "module": "m", "packages": {"sub": one["sub"]}, "env": envx},
+                                          expected={"files": listed}, observed={"exit": rc, "stderr": err[-400:]})
+                        continue
+                txt = t["m/sub.v"][0].decode()
+                got = sorted(re.findall(r"^Definition (\w+):", txt, re.M))
+                stats["constraint_files_listed"] += len(listed)
+                if got != want and not found:
+                    found = True
+                    ctx.violation("counterexample", "sources selected differ from `go list -tags goose` (build constraints other than the goose tag)",
+                                  {"proto": "cli-cmd", "module": "m", "packages": {"sub": one["sub"]}, "env": envx}, expected={"files": listed, "definitions": want}, observed={"definitions": got})
         found = gomod.retranslate_stream(ctx, scratch, "goose command: a stale output file was not replaced by the new translation", found)
     finally:
         shutil.rmtree(scratch, ignore_errors=True)
